@@ -84,7 +84,22 @@ def _ranges(pred):
     return out
 
 
+class _Named:
+    def __init__(self, name):
+        self.name = name
+
+
+def _instance(s):
+    """a case's third field is a str, or {"named": x} (an object whose `name` attribute is x) or {"int": n}"""
+    if isinstance(s, dict):
+        if 'named' in s:
+            return _Named(s['named'])
+        return int(s['int'])
+    return s
+
+
 def one(lang, ty, s):
+    s = _instance(s)
     try:
         t = lang.filter_id(s, ty)
     except Exception as ex:  # noqa
